@@ -3,7 +3,7 @@ import numpy as np
 
 from vlib import clock, graphs as G, gens, oracles
 from vlib.base import import_dsw
-from props._repair import generated_graph, call_repair, well_formed, repair_budget_reads, repair_budget_jumps
+from props._repair import generated_graph, large_order_graph, call_repair, well_formed, repair_budget_reads, repair_budget_jumps
 from props.C09 import _corrupt
 
 ID = "C10"
@@ -34,6 +34,18 @@ def setup(ctx):
 def generate(ctx):
     rng = ctx.rng
     dsw = import_dsw()
+    if ctx.shard % 4 == 0 or not ctx.quick():
+        big = large_order_graph(dsw, rng, 8)     # vertex indices beyond 2^15
+        if big is not None:
+            live8 = G.live_vertices(big)
+            g8 = dict(gens.graph_case(big, 8), fam="order-8")
+            for _ in range(6):
+                st = int(rng.choice(live8))
+                w = G.random_walk(big, st, rng.randint(30, 60), rng)
+                for ne in (0, 1, 3):
+                    s = _corrupt(rng, w, ne)
+                    if len(s) >= 8:
+                        yield "repair", dict(g8, start=st, s=s, tag="order-8", indel=rng.random() < 0.6, heap=1e3, nvt=rng.choice([0, 4]))
     ks = ctx.pick([1, 2, 2, 3, 3, 4], [1, 2, 2, 3, 3, 4, 4, 5])
     for _ in range(ctx.pick(150, 1500)):
         k = rng.choice(ks)
@@ -61,7 +73,7 @@ def generate(ctx):
 
         def opts():
             return dict(indel=rng.random() < 0.6, heap=rng.choice([0, 1, 10, 1e3, 1e4]),
-                        nvt=rng.choice([0, 0, 2, 4]))
+                        nvt=rng.choice([0, 0, 2, 4, 4, 33, 40]))
         # first nucleotide not an arc of the start vertex, for every live start vertex (bounded for large graphs)
         for v in (live if len(live) <= 24 else rng.sample(live, 24)):
             missing = [j for j in range(4) if acc[v, j] < 0]
@@ -182,7 +194,7 @@ def floors(agg, tier):
     c = agg["classes"]
     for name, need in (("string|first-not-an-arc", 500), ("string|dead-start", 50), ("string|last-window", 300),
                        ("string|first-window", 300), ("string|random", 200), ("string|alternating", 200), ("string|length-k", 200),
-                       ("string|edited", 500), ("family|raw", 200), ("string|many-error-sites", 30)):
+                       ("string|edited", 500), ("family|raw", 200), ("string|many-error-sites", 30), ("string|order-8", 20)):
         if c.get(name, 0) < need:
             out.append("%s observed %d < %d" % (name, c.get(name, 0), need))
     return out
